@@ -477,6 +477,11 @@ func (w *rwWorker) pblock(x *rwNode) (engine.Node, []V) {
 		}
 		if !registered {
 			w.stats.Count("foreign-credit-kept")
+		} else if !a.Rewards.AmountOf(w.ibcD).Equal(pre1.Rewards.AmountOf(w.ibcD)) {
+			// governance registered the denom: consumer 1's credit is paid in this block too and mixes with
+			// consumer 0's payout in the validators' books; this block's per-validator accounting is not judged
+			w.stats.Count("two-consumers-paid-in-one-block(dont-care)")
+			return c, append(vs, w.conservation(c, "provider block")...)
 		}
 	}
 	paidVals := math.LegacyZeroDec()
